@@ -499,11 +499,20 @@ class Tr:
     def for_parts(self, s: ast.For) -> tuple[list[str], tuple[int, str], str]:
         """`for <name> in <iterable>: <body>` over an iterable that evaluates to a list value:
         (statements evaluating the iterable's effectful parts, (loop variable, iterable expression), body)"""
-        if s.orelse or not isinstance(s.target, ast.Name):
-            raise Unrecognised("for loop of another shape")
+        if s.orelse:
+            raise Unrecognised("for … else")
         pre, it = self.expr(s.iter)
-        v = self.local(s.target.id)
-        return pre, (v, it), self.stmts(s.body)
+        if isinstance(s.target, ast.Name):
+            v = self.local(s.target.id)
+            return pre, (v, it), self.stmts(s.body)
+        if isinstance(s.target, ast.Tuple) and len(s.target.elts) == 2 and all(isinstance(e, ast.Name) for e in s.target.elts):
+            # `for a, b in pairs:` – the pair goes to a fresh local, `a` and `b` are read off it
+            v = self.fresh()
+            a, b = (self.local(e.id) for e in s.target.elts)
+            unpack = [f"(Stmt.assign {a} (Expr.call {B['head']} {self.lst([f'(Expr.loc {v})'])}))",
+                      f"(Stmt.assign {b} (Expr.call {B['index1']} {self.lst([f'(Expr.loc {v})'])}))"]
+            return pre, (v, it), self.seq(unpack + [self.stmts(s.body)])
+        raise Unrecognised("for loop of another shape")
 
     def loop_step(self, w: ast.While) -> str:
         p, c = self.expr(w.test)
